@@ -159,7 +159,8 @@ _DIG = {}
 
 def _classify(rel, b, ref):
     """status class of one file: value:<text> for the marker, complete:<i> / partial / empty / garbage for pickles
-    (complete:<i> = loads and has the VALUE of the file the uninterrupted run wrote in iteration i)"""
+    (complete:<i> = loads and has the VALUE of the file the uninterrupted run wrote in iteration i; partial = non-empty and
+    does not unpickle; garbage = unpickles to a value the uninterrupted run never wrote)"""
     if rel.startswith("last_finished_iteration"):
         t = b.decode("latin1")
         return "empty" if t == "" else f"value:{t}"
@@ -177,6 +178,10 @@ def _classify(rel, b, ref):
     if any(ref[i].get(c, b"").startswith(b) for i in ref for c in cand):
         return "partial"
     d = _digest(b)
+    if d is None:
+        # does not unpickle: a truncated file (a run that was resumed writes value-equal but not byte-equal pickles, so a
+        # prefix test against the reference bytes is not reliable)
+        return "partial"
     if d is not None:
         for i in sorted(ref):
             for c in cand:
